@@ -11,7 +11,8 @@ TRUSTED = [
     "hand-written model lean/CppUModel/Model/Asserts.lean of UtestShell::assert*, doubles_equal, the macros of UtestMacros.h and the "
     "C entry points of TestHarness_c.cpp; tied to the code by (a) translate/extract_asserts.py, which re-reads every assert body / macro / "
     "C entry point on every run (one countCheck() first, condition texts, failure classes, parameter types, cast expressions, the 0xff of "
-    "BYTES_EQUAL) into Gen/AssertShapes.lean, compared with the model's tables by `decide` theorems, and (b) the h_c03 correspondence of this run",
+    "BYTES_EQUAL, the full list of check macros of both headers incl. every _TEXT form, CHECK_THROWS / TEST_EXIT, and the platform predicates "
+    "IsNanImplementation / IsInfImplementation / PlatformSpecificFabs of src/Platforms/Gcc/UtestPlatform.cpp) into Gen/AssertShapes.lean, compared with the model's tables by `decide` theorems, and (b) the h_c03 correspondence of this run",
     "textbook string functions of lean/CppUModel/Spec/Text.lean stand for SimpleString::StrCmp/StrNCmp/contains/equalsNoCase/containsNoCase "
     "(their equality with the code's loops is C13's subject; here it is observed by the correspondence on every generated string pair)",
     "IEEE-754: finite subtraction, fabs and <= of the hardware are what the standard says (the class logic NaN / infinities / which "
@@ -23,7 +24,11 @@ TRUSTED = [
 ASSUMPTIONS = [
     "operands are pure expressions (a macro may evaluate an operand more than once)",
     "a non-NULL string operand is NUL terminated; a non-NULL block operand has at least `size` readable bytes",
-    "the test terminator leaves the test (default terminators; with a crashing terminator the process ends instead)",
+    "the test terminator leaves the test (default terminators of the exception build: NormalTestTerminator throws, the C entry points longjmp; "
+    "this is modelled as `runBody` and observed by the `seq` ops; the -fno-exceptions build is C01's subject; with a crashing terminator the "
+    "process ends instead)",
+    "operand evaluation counts (CHECK_EQUAL: 1 when passing, 4 when failing; CHECK_COMPARE: 1 / 2; function-style macros: 1) are an observation "
+    "about the code (upstream documents the re-evaluation), compared with the model by the `evals` ops, not part of the oracle",
     "doubles: 'differ by no more than the tolerance' is read with the IEEE-754 rounded difference fabs(a-b) <= tol, as every C implementation "
     "of the check computes it (the exact real difference can exceed tol by less than half an ulp of the difference)",
     "CHECK_EQUAL / CHECK_COMPARE use the operands' own operators: for integer operands of different signedness the language converts a "
@@ -35,21 +40,29 @@ RULE = ("one op = one macro invocation in a fresh fixture; integer operands from
         "pairs equal modulo 2^8/2^32 frequent; doubles from all classes (+-0, subnormal, normal, +-DBL_MAX, +-inf, quiet/signalling/negative NaN, "
         "neighbours one ulp apart) x tolerances (0, subnormal, finite, +inf, negative, NaN); strings over an alphabet around the case boundaries "
         "(@ A Z [ ` a z {, 0x01, 0x80, 0xff) with NULL/empty/prefix/case-swapped/substring relations and lengths 0..len+1..SIZE_MAX; blocks with "
-        "interior NUL x NULL x length incl. 0; masks x operand types x byte counts 1,2,4,8; thorough: the lattices exhaustively. "
+        "interior NUL x NULL x length incl. 0; masks x operand types x byte counts 1,2,4,8; doubles beyond +-FLT_MAX (1e39, 1e300, 2e300, DBL_MAX) and "
+        "float-subnormal magnitudes; test bodies of several check statements (C++ and C style, passing prefix then failing checks, TEST_EXIT); "
+        "operands with side effects; every macro also in its _TEXT form; thorough: the lattices exhaustively. "
         "non-trivial = a case with at least one failing and one passing check; distinct = distinct op sequences")
 
 TYPES = ["i8", "u8", "i16", "u16", "i32", "u32", "i64", "u64"]
 PAIR_TYPES = ["i8", "u16", "i32", "u32", "i64", "u64"]
-INT_MACROS_SAME = ["LONGS_EQUAL", "LONGS_EQUAL_TEXT", "UNSIGNED_LONGS_EQUAL", "LONGLONGS_EQUAL", "UNSIGNED_LONGLONGS_EQUAL", "BYTES_EQUAL",
+INT_MACROS_BASE = ["LONGS_EQUAL", "UNSIGNED_LONGS_EQUAL", "LONGLONGS_EQUAL", "UNSIGNED_LONGLONGS_EQUAL", "BYTES_EQUAL",
                    "SIGNED_BYTES_EQUAL", "C_BOOL", "C_INT", "C_UINT", "C_LONG", "C_ULONG", "C_LONGLONG", "C_ULONGLONG", "C_CHAR",
                    "C_UBYTE", "C_SBYTE"]
+INT_MACROS_SAME = INT_MACROS_BASE + [m + "_TEXT" for m in INT_MACROS_BASE] + ["CHECK_EQUAL_TEXT"]
 RELOPS = ["lt", "le", "gt", "ge", "eq", "ne"]
-STR_MACROS = ["STRCMP_EQUAL", "STRNCMP_EQUAL", "STRCMP_NOCASE_EQUAL", "STRCMP_CONTAINS", "STRCMP_NOCASE_CONTAINS", "C_STRING",
-              "STRCMP_EQUAL_TEXT", "STRNCMP_EQUAL_TEXT"]
-MEM_MACROS = ["MEMCMP_EQUAL", "C_MEMCMP", "MEMCMP_EQUAL_TEXT"]
-DBL_MACROS = ["DOUBLES_EQUAL", "C_REAL", "DOUBLES_EQUAL_TEXT"]
-PTR_MACROS = ["POINTERS_EQUAL", "FUNCTIONPOINTERS_EQUAL", "C_POINTER", "CHECK_EQUAL", "POINTERS_EQUAL_TEXT"]
-BOOL_MACROS = ["CHECK", "CHECK_TRUE", "CHECK_FALSE", "CHECK_C"]
+STR_BASE = ["STRCMP_EQUAL", "STRNCMP_EQUAL", "STRCMP_NOCASE_EQUAL", "STRCMP_CONTAINS", "STRCMP_NOCASE_CONTAINS", "C_STRING"]
+STR_MACROS = STR_BASE + STR_BASE + [m + "_TEXT" for m in STR_BASE]
+MEM_MACROS = ["MEMCMP_EQUAL", "C_MEMCMP", "MEMCMP_EQUAL_TEXT", "C_MEMCMP_TEXT"]
+DBL_MACROS = ["DOUBLES_EQUAL", "C_REAL", "DOUBLES_EQUAL_TEXT", "C_REAL_TEXT"]
+PTR_MACROS = ["POINTERS_EQUAL", "FUNCTIONPOINTERS_EQUAL", "C_POINTER", "CHECK_EQUAL", "POINTERS_EQUAL_TEXT", "FUNCTIONPOINTERS_EQUAL_TEXT",
+              "C_POINTER_TEXT"]
+BOOL_MACROS = ["CHECK", "CHECK_TRUE", "CHECK_FALSE", "CHECK_C", "CHECK_TEXT", "CHECK_TRUE_TEXT", "CHECK_FALSE_TEXT", "CHECK_C_TEXT"]
+SEQ_STEPS = ["cpp_pass", "cpp_fail", "c_pass", "c_fail", "cmp_pass", "cmp_fail", "str_null_fail", "cstr_null_fail", "fail", "c_fail_text",
+             "mem_null_fail", "throws_pass", "throws_fail", "dbl_fail", "check_fail", "c_check_fail", "equal_fail", "equal_pass",
+             "bits_fail", "exit"]
+SEQ_PASS = ["cpp_pass", "c_pass", "cmp_pass", "throws_pass", "equal_pass"]
 FAIL_MACROS = ["FAIL", "FAIL_TEST", "C_FAIL", "C_FAIL_TEXT"]
 
 
@@ -133,6 +146,10 @@ D_SPECIAL_BITS = [
     0x4059000000000000, 0x4024000000000000,          # 100, 10
     0x7fefffffffffffff, 0xffefffffffffffff,          # +-DBL_MAX
     0x7fe0000000000000,                              # DBL_MAX/2 + ...: a big finite
+    0x47efffffe0000000, 0x47efffffe0000001, 0xc7efffffe0000000, 0xc7efffffe0000001,   # +-FLT_MAX and the next double beyond it
+    0x48078287f49c4a1d, 0xc8078287f49c4a1d,          # +-1e39 (finite, above FLT_MAX)
+    0x7e37e43c8800759c, 0xfe37e43c8800759c, 0x7e47e43c8800759c, 0xfe47e43c8800759c,   # +-1e300, +-2e300
+    0x380fffffc0000000, 0x36a0000000000000,          # the largest / the smallest float subnormal: normal doubles that are subnormal as float
     0x7ff0000000000000, 0xfff0000000000000,          # +-inf
     0x7ff8000000000000, 0xfff8000000000000, 0x7ff0000000000001, 0x7fffffffffffffff,   # NaNs: quiet, negative, signalling, all ones
 ]
@@ -246,7 +263,35 @@ def op_int(rng):
 def op_enum(rng):
     t = rng.choice(TYPES)
     ve = pick_int(rng, t)
+    if rng.random() < 0.25:
+        return "enumt %s %s %d %s %d" % (rng.choice(["i32", "u16"]), t, ve, t, related_int(rng, t, ve))
     return "enum %s %s %d %s %d" % (rng.choice(TYPES), t, ve, t, related_int(rng, t, ve))
+
+
+def op_zero(rng):
+    t = rng.choice(TYPES)
+    v = rng.choice([0, 0, pick_int(rng, t)])
+    return "zero %s %s %d" % (rng.choice(["CHECK_EQUAL_ZERO", "CHECK_EQUAL_ZERO_TEXT"]), t, v)
+
+
+def op_throws(rng):
+    return "throws %s" % rng.choice(["nothing", "expected", "other", "other_class"])
+
+
+def op_seq(rng):
+    """a test body of several check statements: mostly a passing prefix, then failing checks of both styles"""
+    n = rng.randint(1, 7)
+    steps = []
+    for i in range(n):
+        steps.append(rng.choice(SEQ_PASS) if rng.random() < 0.55 else rng.choice(SEQ_STEPS))
+    return "seq " + " ".join(steps)
+
+
+def op_evals(rng):
+    m = rng.choice(["CHECK_EQUAL", "CHECK_EQUAL", "CHECK_COMPARE_lt", "LONGS_EQUAL"])
+    e0 = rng.randint(-5, 5)
+    a0 = e0 if rng.random() < 0.4 else rng.randint(-5, 5)
+    return "evals %s %d %d %d %d" % (m, e0, rng.choice([0, 0, 1, -1, 3]), a0, rng.choice([0, 0, 1, -2]))
 
 
 def op_bool(rng):
@@ -261,7 +306,7 @@ def op_dbl(rng):
     e = pick_dbl(rng)
     a = related_dbl(rng, e)
     if rng.random() < 0.1:
-        return "dbl CHECK_EQUAL %s %s %s" % (e, a, D_GRID[0])
+        return "dbl %s %s %s %s" % (rng.choice(["CHECK_EQUAL", "CHECK_EQUAL_TEXT"]), e, a, D_GRID[0])
     return "dbl %s %s %s %s" % (rng.choice(DBL_MACROS), e, a, pick_tol(rng, e, a))
 
 
@@ -271,7 +316,7 @@ def op_dcmp(rng):
 
 
 def op_cmp(rng):
-    o = rng.choice(RELOPS)
+    o = rng.choice(RELOPS + ["lt_text"])
     if o in ("lt", "ge") and rng.random() < 0.5:
         te, ta = rng.choice(PAIR_TYPES), rng.choice(PAIR_TYPES)
         ve = pick_int(rng, te)
@@ -326,7 +371,10 @@ def op_bits(rng):
     else:
         va = pick_int(rng, t)
     km = rng.choice(MASKS[tm]) if rng.random() < 0.8 else pick_int(rng, tm)
-    return "bits %s %s %d %s %d %s %d" % (rng.choice(["BITS_EQUAL", "C_BITS"]), t, ve, t, va, tm, km)
+    m = rng.choice(["BITS_EQUAL", "C_BITS"])
+    if tm == "i32" and rng.random() < 0.3:
+        m += "_TEXT"
+    return "bits %s %s %d %s %d %s %d" % (m, t, ve, t, va, tm, km)
 
 
 def op_ptr(rng):
@@ -341,7 +389,7 @@ def op_fail(rng):
 
 
 KINDS = [(op_int, 24), (op_dbl, 16), (op_str, 16), (op_mem, 8), (op_bits, 8), (op_cmp, 8), (op_dcmp, 4), (op_enum, 5),
-         (op_bool, 5), (op_ptr, 4), (op_fail, 2)]
+         (op_bool, 5), (op_ptr, 4), (op_fail, 2), (op_zero, 2), (op_throws, 2), (op_seq, 6), (op_evals, 4)]
 
 
 def gen_case(rng, n):
@@ -427,6 +475,18 @@ def exhaustive(rng):
         for v in LAT[t]:
             for m in BOOL_MACROS:
                 ops.append("bool %s %s %d" % (m, t, v))
+            ops.append("zero CHECK_EQUAL_ZERO %s %d" % (t, v))
+    # every statement kind followed by every statement kind, after a passing prefix of each style
+    for x in SEQ_STEPS:
+        for y in SEQ_STEPS:
+            ops.append("seq %s %s" % (x, y))
+            ops.append("seq cpp_pass c_pass %s %s cpp_fail c_fail" % (x, y))
+    for m in ("CHECK_EQUAL", "CHECK_COMPARE_lt", "LONGS_EQUAL"):
+        for e0 in (-1, 0, 1):
+            for a0 in (-1, 0, 1):
+                for es in (0, 1, -1):
+                    for as_ in (0, 2):
+                        ops.append("evals %s %d %d %d %d" % (m, e0, es, a0, as_))
     return ops
 
 
@@ -492,6 +552,9 @@ def dclass(h):
 def observe(r, rep):
     for op, o in _pairs(r):
         kind = op[0]
+        if kind in ("seq", "evals"):
+            rep.count("check.%s.%s" % (kind, "fail" if o[1] == "1" else "pass"))
+            continue
         name = op[1] if kind not in ("enum",) else "ENUMS_EQUAL_TYPE"
         if kind in ("cmp", "dcmp"):
             name = "CHECK_COMPARE"
@@ -536,9 +599,24 @@ def observe(r, rep):
                 rep.count("branch.mem.zero_length")
         if kind == "int" and op[2] != op[4]:
             rep.count("branch.int.mixed_types")
+    cur = None
     for l in r.impl:
         if l == "> skip":
             rep.count("op.skipped_by_harness")
+        if l.startswith("> seq "):
+            cur = l.split()[2:]
+        elif l.startswith("ran ") and cur is not None:
+            n = int(l.split()[1])
+            if n < len(cur):
+                rep.count("branch.seq.stopped_early_by_%s" % ("exit" if cur[n - 1] == "exit" else "c_style_check" if cur[n - 1] in
+                          ("c_fail", "cstr_null_fail", "c_fail_text", "c_check_fail") else "cpp_check"))
+            else:
+                rep.count("branch.seq.ran_to_the_end")
+            cur = None
+        elif l.startswith("evals "):
+            rep.count("observation.operand_evaluations.%s" % "_".join(l.split()[1:]))
+        elif l.startswith("warn ") and l != "warn 0":
+            rep.count("observation.multiple_evaluation_warnings." + l.split()[1])
 
 
 def signature(r):
@@ -562,7 +640,8 @@ LEVEL_TEXT = ("Machine-checked Lean 4 theorems over an executable model of every
               "value whenever it is representable; strings: equality / first-n equality / case-folded equality / infix on NUL-free byte "
               "strings; blocks: first-n equality; bits: two's complement bits under the mask), counts exactly one check (a passing "
               "CHECK_COMPARE counts none), NULL equals only NULL, a zero length block always matches, NaN equals nothing, doubles are equal "
-              "iff same infinity or |a-b| <= tol for EVERY tolerance (finite, +-inf; IEEE class rules proved, finite arithmetic a parameter). The model is tied to the code on every run by regenerated shape "
+              "iff same infinity or |a-b| <= tol for EVERY tolerance (finite, +-inf; IEEE class rules proved, finite arithmetic a parameter). A test body stops at its first failing check (C++ exception or C longjmp terminator): one failure per failing check, "
+              "nothing after it runs or is counted; CHECK_THROWS and CHECK_EQUAL_ZERO likewise. The model is tied to the code on every run by regenerated shape "
               "tables (condition texts, failure classes, casts, countCheck first and once) checked by `decide`, by a differential harness "
               "that runs every macro in a real fixture under ASan/UBSan, and by an independent specification oracle on the implementation's "
               "own (failures, checks) observations.")
